@@ -307,7 +307,7 @@ fn case(ctx: &mut Ctx, case_seed: u64) {
                                 let ans = ctx.model.ask(&format!("C17 decision {} {}", dir_name(desc), segcols.iter().map(|s| s.0.clone()).collect::<Vec<_>>().join(" ")));
                                 let parts: Vec<&str> = ans.split('/').collect();
                                 if parts.len() == 3 {
-                                    ctx.report.count(if parts[0] == "1" { "decision:stack" } else { "decision:k-way" });
+                                    ctx.report.count(match parts[0] { "1" => "decision:stack", "0" => "decision:k-way", _ => "decision:source-shape-changed" });
                                     if parts[2] == "1" { ctx.report.count("decision:live-nulls"); }
                                     if parts[0] == "1" {
                                         let order = crate::model::parse_nat_list(parts[1]).unwrap_or_default();
